@@ -183,6 +183,8 @@ class MgrGen:
             else:
                 links.append(f"({aid}, .plain {lpath} {acts} {rec_names})")
                 lmeta.append({"name": link.name, "kind": "plain", "callback": link.commit_callback is not None})
+        self.plain_only = getattr(self, "plain_only", {})
+        self.plain_only[cid] = all((" .hist " in l or l.endswith(".skip)") or (" .plain " in l and "] [] [" in l)) for l in links)
         self.class_defs[cid] = (cls.__name__, links)
         self.meta[cls.__name__] = {"id": cid, "links": lmeta}
         return cid
@@ -214,6 +216,7 @@ def generate(repo, outdir_lean, outdir_json, write_if_changed):
         names(n)
     attr_names = GS.Names()
     files, meta_all, mods = [], {}, []
+    laws_src = []
     for v, s in structures.items():
         g = MgrGen(repo, v, s, names, attr_names, no_trail)
         mids = [g.cls_id(c) for c in mgr_classes]
@@ -231,6 +234,15 @@ def generate(repo, outdir_lean, outdir_json, write_if_changed):
         src.append(f"\nend Aoe.Generated.{mod}\n")
         fn = os.path.join(outdir_lean, mod + ".lean")
         write_if_changed(fn, "\n".join(src)); files.append(fn)
+        laws_src.append(f"/-! version {v} -/")
+        for cid, (cname, links) in enumerate(g.class_defs):
+            if g.plain_only.get(cid):
+                laws_src.append(f"theorem plainOnly_{mod}_{cname} : Aoe.Props.Links.ClassSpec.plainOnly {mod}.c{cid} = true := by decide")
+                laws_src.append(f"/-- committing exactly what was constructed leaves every section unchanged ({cname}, version {v}) -/\n"
+                                f"theorem commit_construct_id_{mod}_{cname} (fuel : Nat) (hist : List Nat) (s : Sections) (obj : Val)\n"
+                                f"    (h : constructObj {mod}.classes (fuel + 1) {cid} hist s = .ok obj) :\n"
+                                f"    commitObj {mod}.classes (fuel + 1) {cid} hist obj s = .ok s :=\n"
+                                f"  Aoe.Props.Links.commit_construct_id {mod}.classes fuel {cid} hist s obj {mod}.c{cid} rfl plainOnly_{mod}_{cname} h\n")
         mods.append((v, mod))
         meta_all[v] = {"classes": g.meta, "managers": [c.__name__ for c in mgr_classes]}
     agg = "\n".join(f"import Aoe.Generated.{m}" for _, m in mods) + "\n/-! GENERATED by tools/gen_mgr.py -/\nnamespace Aoe.Generated\nopen Aoe.Commit\n"
@@ -238,6 +250,10 @@ def generate(repo, outdir_lean, outdir_json, write_if_changed):
     agg += "\n".join(f"  {'if' if i == 0 else 'else if'} v == \"{v}\" then some ({m}.classes, {m}.managers, {m}.secNames)" for i, (v, m) in enumerate(mods))
     agg += "\n  else none\nend Aoe.Generated\n"
     fn = os.path.join(outdir_lean, "MgrTables.lean"); write_if_changed(fn, agg); files.append(fn)
+    laws = ("import Aoe.Props.Links\nimport Aoe.Generated.MgrTables\n/-! GENERATED by tools/gen_mgr.py – `commit ∘ construct = id` instantiated at every generated class "
+            "whose links are plain value links without refresh actions (side condition closed by `decide`). -/\n"
+            "namespace Aoe.Generated.MgrLaws\nopen Aoe Aoe.Codec Aoe.Commit Aoe.Generated\n\n" + "\n".join(laws_src) + "\nend Aoe.Generated.MgrLaws\n")
+    fn = os.path.join(outdir_lean, "MgrLaws.lean"); write_if_changed(fn, laws); files.append(fn)
     os.makedirs(outdir_json, exist_ok=True)
     fn = os.path.join(outdir_json, "mgr.json")
     write_if_changed(fn, json.dumps({"attr_names": [k for k, _ in sorted(attr_names.ids.items(), key=lambda kv: kv[1])], "versions": meta_all}))
